@@ -128,6 +128,28 @@ def run(ctx):
             ctx.fn("star_sharks::Sharks::recover").loc)
     ctx.floor("C16.R3", 3)
 
+    # ---- R6 = C01.R3: share and recover run the same keyed cipher over message then coins (needed to rebuild (M, R))
+    from . import c01
+    c01.adss_cipher_agreement(ctx, "C16.R6")
+    ctx.floor("C16.R6", 2)
+    # ---- R7 the threshold travels unmodified from the access structure into Sharks (share and recover alike) --------
+    for root7 in ("adss::Commune::share", "adss::recover"):
+        e7, r7, _, _ = ctx.root(root7)
+        cs = [e for e in Q.calls(e7, "star_sharks::Sharks::") if e["callee"].endswith(("::dealer_rng", "::recover"))]
+        ok7 = bool(cs)
+        found = []
+        for e in cs:
+            sh_ = e["argv"][0]
+            thr = sh_.args[1] if sh_.op == "agg" and len(sh_.args) == 2 else None
+            p = Q.path_of(thr) if thr is not None else None
+            found.append(p or S(thr, 3))
+            if p is None or not p.endswith(".0"):
+                ok7 = False
+        ctx.add("C16.R7", root7 + "#threshold-passed-unmodified", ok7,
+                "Sharks must be parameterised with exactly the access structure's threshold (no clamping or arithmetic): %s" % found,
+                ctx.fn(root7).loc, sample=found)
+    ctx.floor("C16.R7", 2)
+
     # ---- R5: no length combination of message / coins can crash sharing or recovery (PANIC engine of C09) ------
     from . import c09
     c09.run_entries(ctx, "C16.R5", [("adss::Commune::share", {"self.%d" % fidx(ctx, CM, "M"), "self.%d" % fidx(ctx, CM, "R")}, "A"),
